@@ -171,7 +171,16 @@ def call_value(ex, st, f, pos, named, stars, sargs, node, ov=None):
     if isinstance(f, PClosure):
         k = C.CONTRACTS.get(f.qual.split(':')[-1]) or C.CONTRACTS.get(f.qual) or next((c for c in C.CONTRACTS.values() if c.qual == f.qual), None)
         if k is None: raise Unsupported(f'no contract for nested function {f.qual}')
-        return apply_contract(ex, st, k, None, pos, named, stars, sargs, node)
+        if not k.closure: return apply_contract(ex, st, k, None, pos, named, stars, sargs, node)
+        # a nested function called from the function that defines it: its free variables are the caller's locals of the same name
+        outs = []
+        for s1, b in bind_args(ex, st, k, None, pos, named, stars, sargs, node):
+            if isinstance(b, Raise): outs.append((s1, b)); continue
+            for name in k.closure:
+                if name not in s1.env: raise Unsupported(f'{f.qual}: free variable {name} is not a local of the caller')
+                b[name] = s1.env[name]
+            outs.extend(apply_bound(ex, s1, k, b, f'call:{k.key}'))
+        return outs
     if isinstance(f, PBound):
         return call_method(ex, st, f.recv, f.name, pos, named, stars, sargs, node, None)
     h = ex.spec.calls.get('*value*')
@@ -1291,3 +1300,29 @@ def _seq_count(ex, st, recv, pos, named, node):
 
 
 for _w in (ZV, PSeq, PTuple): METHOD_HANDLERS[(_w, 'count')] = _seq_count
+
+
+# ---- str.split(sep): a non-empty list of strings (which pieces: uninterpreted function of the string and the separator) ---------------------------
+str_split = Function('str_split', StringSort(), StringSort(), IntSort())         # -> tuple key of the resulting list
+
+
+def _str_split(ex, st, recv, pos, named, node):
+    if named or len(pos) > 2: return None
+    if isinstance(recv, ZV) and recv.kind not in ('str', 'val'): return None
+    if not pos: return None
+    outs = []
+    z = to_val(recv, st)
+    for s1, is_s in ex.fork(st, Val.is_S(z), f'L{node.lineno}.split_str'):
+        if not is_s:
+            outs.append((s1, Raise(PExc('AttributeError', val=Val.Obj(fresh('exc', IntSort())), where='call')))); continue
+        sep = ex.as_str(s1, pos[0])
+        k = str_split(Val.s(z), sep) if len(pos) == 1 else fresh('split', IntSort())       # with maxsplit: some list of strings
+        j = Int('j!sp')
+        s1 = s1.copy()
+        s1.assume(tup_len(k) >= 1, Not(tup_is_tuple(k)), ForAll([j], Implies(And(0 <= j, j < tup_len(k)), Val.is_S(tup_item(k, j)))))
+        if len(pos) == 2: s1.assume(tup_len(k) <= 1 + as_kind(pos[1], INT, s1))
+        outs.append((s1, ZV('val', Val.T(k))))
+    return outs
+
+
+for _w in (ZV, PConst): METHOD_HANDLERS[(_w, 'split')] = _str_split
